@@ -475,7 +475,26 @@ def differential(ctx, comp, harness, batch, oracle, cmp=default_cmp, keep_first=
             else:
                 orc_c = orc + [c for c in crashes if c not in orc]
             corr = cmp(lm, lh) if runner_ok else []
-            out.append((sid, lines, corr, orc_c, lm, lh, orc is not None))
+            # complaints attributed to a recorded known finding are set aside (per complaint, not per script)
+            kf = []
+            if known:
+                keep = []
+                for c in orc_c:
+                    k = known(lines, c, lh)
+                    if k:
+                        kf.append(k)
+                    else:
+                        keep.append(c)
+                orc_c = keep
+                keep = []
+                for c in corr:
+                    k = known(lines, c, lh)
+                    if k:
+                        kf.append(k)
+                    else:
+                        keep.append(c)
+                corr = keep
+            out.append((sid, lines, corr, orc_c, lm, lh, orc is not None, kf))
         return out
     results = evaluate(batch)
     stats = {'evaluated': len(batch), 'oracle_applicable': sum(1 for r in results if r[6]),
@@ -485,18 +504,16 @@ def differential(ctx, comp, harness, batch, oracle, cmp=default_cmp, keep_first=
     ctx.cov['evaluations'] += len(batch)
     if runner_ok:
         ctx.cov['traces_validated_against_impl'] = ctx.cov.get('traces_validated_against_impl', 0) + len(batch)
+    for r in results:
+        for k in r[7]:
+            ctx.known(k)
+            stats['known_hits'] += 1
     fails = [r for r in results if r[2] or r[3]]
     stats['failing'] = len(fails)
     fails.sort(key=lambda r: (0 if r[3] else 1, len(r[1])))
     seen = set()
     reported = 0
-    for sid, lines, corr, orc, lm, lh, app in fails:
-        if known:
-            kf = known(lines, orc + corr, lh)
-            if kf:
-                ctx.known(kf)
-                stats['known_hits'] += 1
-                continue
+    for sid, lines, corr, orc, lm, lh, app, _kf in fails:
         if reported >= max_reports:
             continue
         key = re.sub(r'\d+', 'N', (orc or corr)[0])[:60]
@@ -507,15 +524,13 @@ def differential(ctx, comp, harness, batch, oracle, cmp=default_cmp, keep_first=
 
         def still(ls):
             r = evaluate([('s', ls)])[0]
-            if known and known(ls, r[3] + r[2], r[5]):
-                return False
             return bool(r[3]) if want_oracle else bool(r[2] or r[3])
         small = shrink_lines(lines, still, keep_first=keep_first, budget=shrink_budget)
         r = evaluate([('s', small)])[0]
         if not (r[2] or r[3]):
             small = lines
             r = evaluate([('s', small)])[0]
-        _, _, corr2, orc2, lm2, lh2, _ = r
+        _, _, corr2, orc2, lm2, lh2, _, _ = r
         msg = (orc2 or corr2 or orc or corr)[0]
         text = '=== replay\n' + '\n'.join(small) + '\n--- spec-oracle complaints (C++ vs Spec)\n' + '\n'.join(orc2) + \
                '\n--- correspondence complaints (model vs C++)\n' + '\n'.join(corr2) + \
